@@ -122,6 +122,23 @@ pub fn check_diff(n1: i32, n2: i32, t2: i64) -> Result<(), String> {
         if f != days as f64 {
             return Err(format!("Date.sub_date = {days} days but OracleDate.sub_date = {f}"));
         }
+        // the same two days at the same whole-second time of day, and at two different ones:
+        // OracleDate.sub_date (days as a double) = Timestamp.sub_timestamp (exact us) / one day
+        let ts2 = t2 as i128 / US_PER_SEC * US_PER_SEC;
+        for (ta, tb) in [(ts2, ts2), (ts2, 0), (0, ts2), (ts2, US_PER_DAY - US_PER_SEC - ts2)] {
+            let (xa, xb) = (ad::ts((m1 + ta) as i64), ad::ts((m2 + tb) as i64));
+            let (oa, ob) = (ad::ora((m1 + ta) as i64), ad::ora((m2 + tb) as i64));
+            let us = xa.sub_timestamp(xb).usecs();
+            let want = us as f64 / US_PER_DAY as f64; // us is a multiple of 2^6 below 2^59: exact, one rounding
+            let f = oa.sub_date(ob);
+            if f != want {
+                return Err(format!("at times of day {ta} / {tb} us: OracleDate.sub_date = {f:e} days but Timestamp.sub_timestamp = {us} us = {want:e} days"));
+            }
+            let g = xa.oracle_sub_date(ob).usecs();
+            if g != us {
+                return Err(format!("at times of day {ta} / {tb} us: Timestamp.oracle_sub_date = {g} us but Timestamp.sub_timestamp = {us} us"));
+            }
+        }
         // against an arbitrary timestamp y = (n2, t2)
         let y = ad::ts((m2 + t2 as i128) as i64);
         let a = d1.sub_timestamp(y).usecs();
